@@ -242,6 +242,20 @@ def specOp (op : String) (args : List String) : Option String :=
     pure (match Spec.scanStringBody (body ++ [34]) with
       | some [] => s!"ok {lhex (Spec.decodeString (body.length + 1) body)} {body.length}"
       | _ => "err")
+  | "specUnescapeWF", [d] => do
+    let d ← hexToBytes d
+    let body := d.toList
+    pure (match Spec.scanStringBody (body ++ [34]) with
+      | some [] => s!"ok {lhex (Spec.decodeString (body.length + 1) body)} {body.length}"
+      | _ => "any")
+  | "specTreeKind", [lim, kind, d] => do
+    let d ← hexToBytes d; let lim ← lim.toNat?; let kind ← kind.toNat?
+    pure (match Spec.skipWs d.toList with
+      | b :: _ =>
+        if b.toNat == kind then
+          match Spec.readValue lim d.toList with | some (v, e) => s!"ok {specRender v} {e}" | none => "err"
+        else "err"
+      | [] => "err")
   | "specInt", [lo, hi, sg, d] => do
     let d ← hexToBytes d; let lo ← parseInt? lo; let hi ← parseInt? hi
     pure (match Spec.readInt lo hi (sg == "true") d.toList with | some (v, e) => s!"ok {v} {e}" | none => "err")
